@@ -20,8 +20,11 @@ def main(tier):
             for ent in ("low", "high"):
                 if "comp" not in st and ent == "low":
                     continue
+                # every third archive is written to a destination that accepts 1, 3 or 7 bytes of each write, sometimes
+                # after an interruption: "the bytes handed to the destination" when flush returns must still be enough
+                sched = [[], [1], [3, 0, 7, 1]][sid % 3]
                 jobs.append(dict(par=dict(stack=st, seed=seed() + 91 + si, level=levels[si % len(levels)], entropy=ent),
-                                 sid=sid, flush_all=True, **s))
+                                 sid=sid, flush_all=True, sched=sched, **s))
                 sid += 1
     # long histories: 45-70 calls on up to 12 files, a flush after every one of them
     for li, s in enumerate(long_scenarios(2 + seed() % 5)[:3 if tier == "quick" else 12]):
